@@ -4,6 +4,7 @@ import "verif/engine/interp"
 
 func init() {
 	props["C12"] = &propImpl{files: []string{"h_lib.go", "h_kinds.go", "h_c12.go"}, run: runC12}
+	props["C16"] = &propImpl{files: []string{"h_lib.go", "h_kinds.go", "h_c16.go"}, run: runC16}
 	props["C15"] = &propImpl{files: []string{"h_lib.go", "h_kinds.go", "h_c15.go"}, run: runC15}
 }
 
@@ -49,6 +50,19 @@ func runC15(c *Check) error {
 	}
 	c.Bounds = append(c.Bounds,
 		"every node kind of pkg/ast/node.go: every token and child slot present or absent (full product up to 6 such slots, otherwise all-present, all-absent, each single slot absent, each single slot present), lists of length 0..2 with separators none / len-1 / len")
+	c.Assumptions = append(c.Assumptions, stdAssumptions...)
+	c.ExploreNeeds(needs, nil)
+	return nil
+}
+
+func runC16(c *Check) error {
+	needs, err := kindJobs(c, "H_C16_Kind", "dumped", nil)
+	if err != nil {
+		return err
+	}
+	c.Bounds = append(c.Bounds,
+		"every node kind of pkg/ast/node.go x the four WithTokens/WithPositions combinations: every child, token, value and position slot present or absent (full product up to 6 such slots, otherwise all-present, all-absent, each single slot absent, each single slot present), lists of length 0 (nil and empty), 1, 2",
+		"the dump is read back by a line-level reader for the dumper's layout (one literal per node, fields 'Key: value,'); the native replay runs the same reader")
 	c.Assumptions = append(c.Assumptions, stdAssumptions...)
 	c.ExploreNeeds(needs, nil)
 	return nil
